@@ -13,8 +13,10 @@ RULE = ("_get_slice: every multiset of 1..4 timestamps on the even grid {0,2,..,
         "no sample or no bin, align start/end, padding, Tsd/TsdFrame/Ts/TsGroup. distinct = distinct (timestamps, window, mode)")
 PROVED = ("get_window: restrict-mode slice = exactly the positions with start <= t <= end (sorted t, any length, duplicates); "
           "get_rejects_inverted; get_nearest: x.get(start) returns slice (i, i+1) of a sample at least as close to start as every other "
-          "(any non-empty sorted series, start before / inside / after the data, ties to the later sample, Python's wrap-around t[-1] read)")
-NOT_PROVED = "before_t / after_t / closest_t with end, trial tensor layout, trial_count == count, warp == count: oracle + correspondence"
+          "(any non-empty sorted series, start before / inside / after the data, ties to the later sample, Python's wrap-around t[-1] read); "
+          "trial_rows / trialRow_mem: to_trial_tensor has one row per trial, all equally long, sample k in row i iff start_i <= t[k] <= end_i, "
+          "occupied cells consecutive in time order at the start (align=start) or the end (align=end) of the row, the rest padding")
+NOT_PROVED = "before_t / after_t / closest_t with end, trial_count == count, warp == count: oracle + correspondence"
 ASSUMPTIONS = ["series non-empty and sorted (C04)"]
 MODES = ["before_t", "after_t", "closest_t", "restrict"]
 
@@ -133,6 +135,13 @@ def trials(ctx, n):
             tt = tsd.to_trial_tensor(ep, align=align, padding_value=pad)
             if not eq(tt, layout(rows, width)):
                 ctx.fail("oracle", "to_trial_tensor layout", inp, impl=tt.tolist(), expected=layout(rows, width).tolist())
+            # the same call on the model: which sample position sits in which cell
+            if ctx.lean:
+                o = ctx.lean.run(["trial %s %s %d" % (enc(ts), ",".join("%d:%d" % (a, b) for a, b in zip(st, en)), 1 if align == "end" else 0)])[0]
+                cells = [[] if r == "." else [None if c == "-" else int(c) for c in r.split(",")] for r in o.split("|")] if not o.startswith("ERR") else o
+                got = [[None if (np.isnan(v) if np.isnan(pad) else v == pad) else int(v) - 1 for v in row] for row in np.asarray(tt)]
+                if cells != got:
+                    ctx.fail("corr", "to_trial_tensor cells != model trialTensor", inp, impl=got, model=cells)
             bt = nap.build_tensor(tsd, ep, align=align, padding_value=pad)
             if not eq(bt, tt):
                 ctx.fail("oracle", "build_tensor(Tsd) != to_trial_tensor", inp)
